@@ -1,4 +1,4 @@
-import CalicoVerif.Model.C23
+import CalicoVerif.Proofs.C23
 /-!
 C23 — IPAM garbage collection never frees an address that is still in use.
 Property theorems over the model `Model/C23.lean`, for EVERY collector state,
@@ -17,11 +17,16 @@ produced that state.
 * `block_release_guarded` — every `ReleaseBlockAffinity` is for a block the collector holds as empty,
   whose node has at least two blocks in `blocksByNode`, after a positive grace period measured
   from an earlier observation (two observations).
-* `never_last_block` is FALSE of the current code: `blocksByNode` is not cleaned when a block's
-  affinity moves straight from one host to another, so the guard above counts a block the node no
-  longer has.  `last_block_released_witness` is the concrete history (reproduced on the real
-  controller by the harness: corpus/C23/last-block.ops, oracle signature `last-block-stale-index`);
-  `never_last_block_partial` is what holds: w.r.t. the collector's own `blocksByNode`.
+* `reachable_idx` / `idx_step` — store/index consistency: in every reachable state `blocksByNode[n]` is
+  exactly (and without duplicates) the set of blocks whose latest seen affinity is `n`, and every
+  empty-block entry names its block's node; proved over `onBlockUpdated`, `forgetBlock` and every
+  other step (the allocation-side functions do not touch these indexes).
+* `never_last_block` / `sync_never_last_block` — FULL strength since the repair of `onBlockUpdated`
+  (/repo 361e296): whenever a sync releases the affinity of block `b` of `node`, the blocks seen hold
+  ANOTHER block whose latest affinity is `node`.  (Before the repair this was false: the index kept
+  a block whose affinity had moved straight to another host; `last_block_history_fixed` is the old
+  counterexample history, which now releases nothing; the harness oracle keeps the signature
+  `last-block-stale-index` and corpus/C23/last-block.ops so a regression is reported.)
 * `handle_all_or_none` is only proved as the per-address guard inside `gc_release_justified`
   (all allocations sharing the handle are confirmed leaks when the address is selected).
 -/
@@ -244,15 +249,148 @@ theorem block_release_guarded (st : St) (l : List (Nat × Nat)) :
               · simp only [h5] at h
                 exact ih _ b node h
 
-/-- **never_last_block, partial**: w.r.t. the collector's OWN index `blocksByNode` a released block is
-never the node's only one.  (The index itself can be stale — see the witness below.) -/
-theorem never_last_block_partial (st : St) (b node : Nat)
-    (h : Call.releaseBlockAffinity b node ∈ (releaseUnusedBlocks st).2) :
-    ∃ st' : St, 2 ≤ ((st'.blocksByNode.get node).getD []).length := by
-  obtain ⟨st', hg⟩ := block_release_guarded st _ b node h
-  exact ⟨st', hg.twoBlocks⟩
+/-! ### index consistency and the full `never_last_block` -/
 
-/-! ### the full `never_last_block` is false of the current code -/
+theorem exists_other {l : List Nat} (hn : l.Nodup) (h2 : 2 ≤ l.length) (b : Nat) : ∃ x ∈ l, x ≠ b := by
+  match l, hn, h2 with
+  | [], _, h2 => simp at h2
+  | [_], _, h2 => simp at h2
+  | a :: c :: rest, hn, _ =>
+    by_cases ha : a = b
+    · refine ⟨c, by simp, fun hc => ?_⟩
+      have := (List.nodup_cons.1 hn).1
+      apply this
+      rw [ha, ← hc]; simp
+    · exact ⟨a, by simp, ha⟩
+
+theorem fr_markEmpty (s : St) (b : Nat) : Fr s (markEmpty s b).1 := by
+  unfold markEmpty
+  split
+  · split
+    · split
+      · exact ⟨rfl, rfl, rfl⟩
+      · exact Fr.refl s
+    · exact Fr.refl s
+  · exact Fr.refl s
+
+theorem forgetBlock_empty (s : St) (b : Nat) : (forgetBlock s b).emptyBlocks = s.emptyBlocks.del b := by
+  unfold forgetBlock
+  simp only
+  rw [(fr_releaseAll s _).2.2]
+
+/-- what holds, in the state `st` at that moment, when block `b` of `node` has its affinity released:
+the indexes are consistent, `b` is an empty block of `node`, and `node` has ANOTHER block. -/
+structure NotLast (st : St) (b node : Nat) : Prop where
+  idx : Idx st
+  isEmpty : st.emptyBlocks.get b = some node
+  mine : st.nodesByBlock.get b = some node
+  other : ∃ b', b' ≠ b ∧ st.nodesByBlock.get b' = some node
+
+theorem loop_never_last (st : St) (l : List (Nat × Nat)) (hI : Idx st)
+    (hl : ∀ bn ∈ l, st.emptyBlocks.get bn.1 = some bn.2 ∨ st.emptyBlocks.get bn.1 = none) :
+    Idx (releaseUnusedLoop st l).1 ∧
+    ∀ b node, Call.releaseBlockAffinity b node ∈ (releaseUnusedLoop st l).2 → ∃ st', NotLast st' b node := by
+  induction l generalizing st with
+  | nil => exact ⟨hI, fun b node h => by simp [releaseUnusedLoop] at h⟩
+  | cons bn rest ih =>
+    obtain ⟨b0, n0⟩ := bn
+    have hrest : ∀ bn ∈ rest, st.emptyBlocks.get bn.1 = some bn.2 ∨ st.emptyBlocks.get bn.1 = none :=
+      fun bn h => hl bn (List.mem_cons_of_mem _ h)
+    simp only [releaseUnusedLoop]
+    by_cases h1 : (st.emptyBlocks.get b0).isNone = true
+    · simp only [h1, if_true]; exact ih st hI hrest
+    · simp only [h1]
+      by_cases h2 : ((st.blocksByNode.get n0).getD []).length ≤ 1
+      · simp only [h2, if_true]; exact ih st hI hrest
+      · simp only [h2]
+        by_cases h3 : (st.cnodes.get n0 == some none) = true
+        · simp only [h3, if_true]
+          exact ih { st with tracker := st.tracker.del b0 } hI hrest
+        · simp only [h3]
+          have fm := fr_markEmpty st b0
+          cases hm : markEmpty st b0 with
+          | mk st1 ok =>
+            rw [hm] at fm
+            simp only
+            have hI1 : Idx st1 := hI.of_fr fm
+            have hrest1 : ∀ bn ∈ rest, st1.emptyBlocks.get bn.1 = some bn.2 ∨ st1.emptyBlocks.get bn.1 = none := by
+              intro bn h; rw [fm.2.2]; exact hrest bn h
+            cases ok with
+            | false => simp only [Bool.not_false, if_true]; exact ih st1 hI1 hrest1
+            | true =>
+              simp only [Bool.not_true, Bool.false_eq_true, if_false]
+              by_cases h5 : st1.allBlocks.contains b0 = true
+              · simp only [h5, Bool.not_true, Bool.false_eq_true, if_false]
+                have hI2 : Idx (forgetBlock st1 b0) := idx_forgetBlock hI1 b0
+                have hrest2 : ∀ bn ∈ rest, (forgetBlock st1 b0).emptyBlocks.get bn.1 = some bn.2 ∨
+                    (forgetBlock st1 b0).emptyBlocks.get bn.1 = none := by
+                  intro bn h
+                  rw [forgetBlock_empty, AMap.get_del]
+                  by_cases hb : bn.1 = b0
+                  · simp [hb]
+                  · simp only [hb, if_false]; exact hrest1 bn h
+                obtain ⟨i1, i2⟩ := ih (forgetBlock st1 b0) hI2 hrest2
+                refine ⟨i1, fun b node h => ?_⟩
+                rcases List.mem_cons.1 h with heq | h
+                · cases heq
+                  -- the state at release time is st1
+                  have hem : st1.emptyBlocks.get b0 = some n0 := by
+                    rw [fm.2.2]
+                    rcases hl (b0, n0) (by simp) with h' | h'
+                    · exact h'
+                    · simp [h'] at h1
+                  have hmine := hI1.empty b0 n0 hem
+                  have hlen : 2 ≤ (blocksOf st1.blocksByNode n0).length := by
+                    unfold blocksOf; rw [fm.2.1]; omega
+                  obtain ⟨b', hb', hne⟩ := exists_other (hI1.nodup n0) hlen b0
+                  exact ⟨st1, hI1, hem, hmine, b', hne, (hI1.mem n0 b').1 hb'⟩
+                · exact i2 b node h
+              · simp only [h5]
+                exact ih st1 hI1 hrest1
+
+theorem mem_sortKV {m : AMap Nat} {bn : Nat × Nat} (h : bn ∈ sortKV m) : m.get bn.1 = some bn.2 := by
+  simp only [sortKV, List.mem_filterMap] at h
+  obtain ⟨k, _, hk⟩ := h
+  cases hg : m.get k with
+  | none => simp [hg] at hk
+  | some v => simp [hg] at hk; subst hk; exact hg
+
+/-- **never_last_block** (full strength).  In a state with consistent indexes (every reachable state:
+`reachable_idx`), every `ReleaseBlockAffinity(b, node)` issued by `releaseUnusedBlocks` is for an empty
+block of `node` while the blocks seen hold ANOTHER block whose latest affinity is `node`. -/
+theorem never_last_block (st : St) (hI : Idx st) (b node : Nat)
+    (h : Call.releaseBlockAffinity b node ∈ (releaseUnusedBlocks st).2) : ∃ st', NotLast st' b node :=
+  (loop_never_last st _ hI (fun bn hbn => Or.inl (mem_sortKV hbn))).2 b node h
+
+theorem idx_syncIPAM {s : St} (hI : Idx s) : Idx (syncIPAM s).1 := by
+  unfold syncIPAM
+  by_cases hi : s.inSync = true
+  · simp only [hi, Bool.not_true, Bool.false_eq_true, if_false]
+    have h2 : Idx (garbageCollectKnownLeaks (checkAllocations s).1).1 :=
+      (hI.of_fr (fr_checkAllocations s)).of_fr (fr_gc _)
+    have h3 := (loop_never_last _ _ h2 (fun bn hbn => Or.inl (mem_sortKV hbn))).1
+    exact Idx.of_fr h3 (fr_foldl _ fr_markClean _ _)
+  · simp only [hi]; exact hI
+
+/-- **store/index consistency is inductive**: every step keeps `blocksByNode`, `nodesByBlock` and
+`emptyBlocks` consistent. -/
+theorem idx_step {s : St} (hI : Idx s) (op : Op) : Idx (step s op).1 := by
+  cases op with
+  | block b aff es => exact idx_onBlockUpdated hI b aff es
+  | blockDel b => exact idx_forgetBlock hI b
+  | sync full =>
+    simp only [step]
+    cases full with
+    | true => exact idx_syncIPAM (s := { s with fullSync := true }) hI
+    | false => exact idx_syncIPAM hI
+  | dirty n => exact hI.of_fr (fr_markDirty s n)
+  | inSync => exact hI
+  | cnode n k => exact hI
+  | cnodeDel n => exact hI
+  | knode n p => exact hI
+  | pod id c a p => exact hI
+  | podDel id c a => exact hI
+  | tick d => exact hI
 
 def runOps (s : St) : List Op → St × List (List Call)
   | [] => (s, [])
@@ -261,22 +399,50 @@ def runOps (s : St) : List Op → St × List (List Call)
     let r2 := runOps r.1 ops
     (r2.1, r.2.1 :: r2.2)
 
-/-- node 1 owns blocks 1 (one tunnel address) and 2 (empty); block 1's affinity then moves straight to
-node 2 (a resync delivers only the latest state); two syncs 70 minutes apart (grace 60). -/
+theorem idx_runOps {s : St} (hI : Idx s) (ops : List Op) : Idx (runOps s ops).1 := by
+  induction ops generalizing s with
+  | nil => exact hI
+  | cons op ops ih => exact ih (idx_step hI op)
+
+theorem idx_init (g : Option Nat) : Idx { grace := g } :=
+  ⟨fun n b => by simp [blocksOf, AMap.get], fun n => by simp [blocksOf, AMap.get], fun b n h => by simp [AMap.get] at h⟩
+
+/-- every state reachable from a fresh controller has consistent indexes -/
+theorem reachable_idx (g : Option Nat) (ops : List Op) : Idx (runOps { grace := g } ops).1 :=
+  idx_runOps (idx_init g) ops
+
+/-- **never_last_block over a whole sync, from any reachable state**: every `ReleaseBlockAffinity(b, node)`
+of `syncIPAM` leaves `node` another block among the blocks the collector has seen. -/
+theorem sync_never_last_block (s : St) (hI : Idx s) (b node : Nat)
+    (h : Call.releaseBlockAffinity b node ∈ (syncIPAM s).2.1) : ∃ st', NotLast st' b node := by
+  unfold syncIPAM at h
+  by_cases hi : s.inSync = true
+  · simp only [hi, Bool.not_true, Bool.false_eq_true, if_false, List.mem_append, List.mem_map] at h
+    have h2 : Idx (garbageCollectKnownLeaks (checkAllocations s).1).1 :=
+      (hI.of_fr (fr_checkAllocations s)).of_fr (fr_gc _)
+    rcases h with (h | h) | ⟨n, _, h⟩
+    · exfalso
+      unfold garbageCollectKnownLeaks at h
+      simp only at h
+      split at h
+      · simp at h
+      · simp at h
+    · exact never_last_block _ h2 b node h
+    · cases h
+  · simp [hi] at h
+
+/-- the pre-repair counterexample history: node 1 owns blocks 1 (one tunnel address) and 2 (empty);
+block 1's affinity then moves straight to node 2; two syncs 70 minutes apart (grace 60). -/
 def lastBlockHistory : List Op :=
   [.inSync, .cnode 1 (some 1), .knode 1 true, .cnode 2 (some 2), .knode 2 true,
    .block 1 (some 1) [⟨0, some 7, .tunnel, 1, 0, 1⟩], .block 2 (some 1) [],
    .block 1 (some 2) [⟨0, some 7, .tunnel, 1, 0, 1⟩],
    .sync true, .tick 70, .sync true]
 
-/-- **Witness (negation of `never_last_block`).** After the history above the collector releases the
-affinity of block 2 — the ONLY block still affine to node 1 in the blocks it has seen — because
-`blocksByNode[1]` still lists block 1. -/
-theorem last_block_released_witness :
+/-- with the repaired `onBlockUpdated` that history releases nothing, and node 1's index holds only block 2 -/
+theorem last_block_history_fixed :
     let r := runOps { grace := some 60 } lastBlockHistory
-    r.2.getLast? = some [Call.releaseBlockAffinity 2 1] ∧
-    r.1.nodesByBlock = [(1, 2)] ∧            -- the only block left is block 1, and it belongs to node 2
-    r.1.blocksByNode.get 1 = some [1] := by  -- yet the stale index still says node 1 has block 1
+    r.2.getLast? = some [] ∧ r.1.blocksByNode.get 1 = some [2] ∧ r.1.blocksByNode.get 2 = some [1] := by
   decide +kernel
 
 /-! ### non-vacuity -/
